@@ -597,8 +597,10 @@ def render(e, transparent=True, depth=0):
     if k == 'index':
         return '%s[%s]' % (r(e[1]), r(e[2]))
     if k == 'call':
-        return '%s(%s)' % (short(e[1]).rsplit('::', 2)[-1] if short(e[1]).count('::') < 2 else '::'.join(short(e[1]).split('::')[-2:]),
-                           ', '.join(r(a) for a in e[2]))
+        name = short(e[1]).rsplit('::', 2)[-1] if short(e[1]).count('::') < 2 else '::'.join(short(e[1]).split('::')[-2:])
+        if not e[2] and len(e) > 3 and isinstance(e[3], dict) and e[3].get('callee') and e[3]['callee'].get('gen'):
+            name += '::<%s>' % ', '.join(g.rsplit('::', 1)[-1] for g in e[3]['callee']['gen'])
+        return '%s(%s)' % (name, ', '.join(r(a) for a in e[2]))
     if k == 'callptr':
         return '(*%s)(%s)' % (r(e[1]), ', '.join(r(a) for a in e[2]))
     if k == 'binop':
